@@ -7,6 +7,17 @@ SIZES_MAIN = [2, 3, 2, 2, 3, 2, 2, 2, 2]
 SIZES_ONE = [1, 3, 2, 2, 2, 2, 2, 2, 2]   # contains a size-1 attribute
 
 
+def sizes_for(name, k):
+    """size patterns: 'main', 'one' (first attribute has size 1), 'last1' (last attribute has size 1, others distinct-ish)"""
+    if name == 'main':
+        return SIZES_MAIN[:k]
+    if name == 'one':
+        return SIZES_ONE[:k]
+    if name == 'last1':
+        return ([3, 4, 5, 6, 2, 3][:k - 1] + [1]) if k >= 2 else [1]
+    raise ValueError(name)
+
+
 def all_graphs(k):
     """every labelled graph on the first k attributes, as a list of edge tuples"""
     attrs = ATTRS[:k]
